@@ -224,7 +224,9 @@ impl<K: SimKernel<D>, const D: usize> Monitor<K, D> for C16 {
                 } else if geom::embedded(post, &rv) == Tri::Yes {
                     let rd = refdt::check(post);
                     ctx.stats.abstained += rd.abstained as u64;
-                    if !rd.violations.is_empty() {
+                    if out.predicate_failure_absorbed() {
+                        ctx.stats.bump("c16.delaunay_clause_not_judged_predicate_failure_absorbed");
+                    } else if !rd.violations.is_empty() {
                         push_violation(
                             ctx.violations,
                             violation("C16", "toroidal-construction-not-delaunay", ctx.step, format!("d={D}|{}", rd.violation_class()), format!("{} exact empty-circumsphere violations among the wrapped points", rd.violations.len())),
